@@ -471,7 +471,6 @@ package netty
 //@   ensures full_only_on_default: implies(count("select default") == 1, result1 == ErrAsyncNoSpace) && implies(result1 == ErrAsyncNoSpace && count("recv c.ctx.Done()") == 0 && count("recv ctx.Done()") == 0, count("select default") == 1)
 //@   ensures cancelled: implies(count("recv ctx.Done()") == 1, result1 != nil && count("send c.writeQueue") == 0)
 //@   ensures closed_branch_fails@C11: implies(count("recv c.ctx.Done()") == 1, result1 != nil)
-//@   ensures closed_rejects@C11: implies(old(closedState(c)), result1 != nil && count("send c.writeQueue") == 0)
 
 // asyncWritev: all buffers are merged into ONE packet (C09: a vectored message is one queue entry)
 //@ property C01 C02 C09 C10 C11 C18
@@ -494,7 +493,6 @@ package netty
 //@   ensures full_only_on_default: implies(count("select default") == 1, result1 == ErrAsyncNoSpace)
 //@   ensures cancelled: implies(count("recv ctx.Done()") == 1, result1 != nil && count("send c.writeQueue") == 0)
 //@   ensures closed_branch_fails@C11: implies(count("recv c.ctx.Done()") == 1, result1 != nil)
-//@   ensures closed_rejects@C11: implies(old(closedState(c)), result1 != nil && count("send c.writeQueue") == 0)
 
 // events enter the pipeline through these (the concrete *pipeline methods are verified above);
 // handlers behind them are arbitrary code: may panic, may modify anything but pipeline/context/
@@ -551,9 +549,10 @@ package netty
 
 //@ property C01 C02 C05 C06 C07 C09 C10 C11 C12 C18
 //@ func (*channel).loadCloseErr
-//@   requires c != nil
+//@   requires c != nil && c.ctx != nil
 //@   modifies nothing
 //@   ensures one_atomic_load: nemitted() == 1 && evis(0, "Load")
+//@   ensures error_once_the_context_is_done@C11: implies(chclosed(ctxdone(c.ctx)), result != nil)
 
 // The background sender. One activation owns the sender token (running == 1) from its start
 // until it stores idle; it drains the queue in FIFO batches.
@@ -719,6 +718,7 @@ package netty
 //@ property C14 C09 C10 C11
 //@ func (*channel).ReadFrom
 //@   requires chinv(c) && implies(c.writeQueue != nil, cap(c.writeQueue) >= 1) && r != nil && rwf(r)
+//@   ensures closed_rejects@C11: implies(old(closedState(c)), err != nil && n == 0 && count("netty.channel.write1") == 0 && count("io.Reader.Read") == 0)
 //@   may_panic true
 //@   modifies all
 //@   loop 0 modifies all
